@@ -3,7 +3,11 @@ design : ChainIndex_MC - tables written/pruned as UpdateLastAccepted / SaveHisto
          with the property monitor (window, last accepted, must-be-retrievable set); invariants AcceptSucceeds,
          WindowRetrievable, Consistent, Bounded                                              [TLC exhaustive]
          (thorough: the model of UpdateLastAccepted as originally coded must violate AcceptSucceeds)
-binding: (tv) every history of N steps over {accept next, accept after a gap, save below the tip (inside / below
+         crash points: CrashAccept / CrashSave (the durable step of a call is atomic: reopened image = before or after
+         the whole call); thorough: a crash between two batch writes (seeded variant) must violate WindowRetrievable
+binding: (tv) crash family: the database handed to the index fails every durable write after the k-th one of an
+         accept / gap accept / historical save (k = 0..3), the index is reopened on the underlying memdb and observed;
+         every history of N steps over {accept next, accept after a gap, save below the tip (inside / below
          the window), restart with same / other window} for windows 0..3, plus seeded random long histories, run
          on the real ChainIndex over memdb; after every call all four getters are queried for every height and
          the observed tables are loaded into the specification's variables, on which the invariants are evaluated"""
@@ -20,7 +24,7 @@ KF_W0 = "bounded:window-0-keeps-every-block"
 def window_at(fail):
     w = fail.get("reset", {}).get("w")
     for l in fail.get("scenario", []):
-        if l.get("ev") in ("restart", "reset"):
+        if l.get("ev") in ("restart", "reset", "crash"):
             w = l.get("w")
     return w
 
@@ -49,8 +53,9 @@ def binding_tv(ctx, scenarios, depth, sysdepth):
     sp = os.path.join(ctx.work, "out", "record_stats.json")
     stats = json.load(open(sp))
     os.remove(sp)
-    files = vlib.scenario_files(ctx, "sys-") + vlib.scenario_files(ctx, "rnd-")
-    expect = 4 * 7 ** sysdepth + scenarios
+    crs = vlib.scenario_files(ctx, "crs-")
+    files = vlib.scenario_files(ctx, "sys-") + crs + vlib.scenario_files(ctx, "rnd-")
+    expect = 4 * 7 ** sysdepth + scenarios + 500
     if len(files) < (1 if ctx.only is not None else expect):
         raise vlib.Infra("recorder wrote %d of %d scenarios" % (len(files), expect))
     distinct = set()
@@ -59,14 +64,17 @@ def binding_tv(ctx, scenarios, depth, sysdepth):
         lines = vlib.read_ndjson(f)
         evs = [l["ev"] for l in lines]
         gap = any(a["ev"] == "accept" and a["h"] > b["last"] + 1 for a, b in zip(lines[2:], lines[1:]))
-        if gap or "save" in evs or "restart" in evs:
+        if gap or "save" in evs or "restart" in evs or "crash" in evs:
             distinct.add(hash(json.dumps([(l["ev"], l.get("h", l.get("w"))) for l in lines])))
         if lines[0]["w"] == 0 and "restart" not in evs and len(lines) > 3 and len(w0) < 1:
             w0.append(f)
     ctx.add("evaluations", len(files))
     ctx.add("distinct_nontrivial", len(distinct))
     ctx.sample({"kind": "recorded-trace", "first_lines": vlib.read_ndjson(files[len(files) // 2])[:5]})
-    for k in ("accept_with_prune_target_missing", "save_below_window", "restart_with_other_window"):
+    ctx.add("crash_histories", len(crs))
+    ctx.add("tv_crash_hit_but_call_took_effect", stats.get("crash_hit_but_call_took_effect", 0))
+    for k in ("accept_with_prune_target_missing", "save_below_window", "restart_with_other_window", "crash_events",
+              "crash_injected_failure_hit", "crash_hit_and_call_lost"):
         ctx.add("tv_" + k, stats.get(k, 0))
         if ctx.only is None and stats.get(k, 0) == 0:
             raise vlib.Infra("vacuity: recorded histories never exercised " + k)
@@ -86,19 +94,24 @@ def binding_tv(ctx, scenarios, depth, sysdepth):
 def run(ctx):
     if ctx.only is None:
         vlib.tlc_mc(ctx, "ChainIndex", ctx.pick("ChainIndex_MC_quick.cfg", "ChainIndex_MC.cfg"), coverage=True,
-                    allow_zero=("AcceptO", "IAcceptAsOriginallyCoded", "NextO"))
+                    allow_zero=("AcceptO", "IAcceptAsOriginallyCoded", "NextO", "CrashAcceptTwoBatches", "NextT"))
         if not ctx.quick:
             r = vlib.tlc_mc(ctx, "ChainIndex", "ChainIndex_MC_original.cfg", label="orig", expect_violation=True)
             ctx.cov["design_step_detects_pre_fix_UpdateLastAccepted"] = bool(r["violated"])
             if not r["violated"] or "AcceptSucceeds" not in r["violated"]:
                 raise vlib.Infra("sensitivity: the model of the pre-fix UpdateLastAccepted no longer violates AcceptSucceeds")
+            r = vlib.tlc_mc(ctx, "ChainIndex", "ChainIndex_MC_twobatch.cfg", label="twobatch", expect_violation=True)
+            ctx.cov["design_step_detects_non_atomic_accept"] = bool(r["violated"])
+            if not r["violated"] or "WindowRetrievable" not in r["violated"]:
+                raise vlib.Infra("sensitivity: a crash between two batch writes of an accept no longer violates WindowRetrievable")
     fails = binding_tv(ctx, ctx.pick(300, 3000), ctx.pick(40, 60), ctx.pick(3, 4))
     vlib.report_failures(ctx, fails, describe)
     ctx.cov["rule"] = ("tv: (a) all 7^N op sequences (N=3 quick, 4 thorough) after accept(0) over {accept tip+1, accept tip+3, "
                        "save tip-1, save tip-3, restart same window, restart window 1, restart window 3} for initial windows "
                        "0..3; (b) seeded random histories of 40-60 ops, windows 0..5, gaps 2..7, saves anywhere below the tip. "
                        "non-trivial = contains a gap accept, a historical save or a restart; distinct = distinct (op, arg) sequences")
-    ctx.assumptions += ["healthy database (memdb; no injected I/O errors)",
+    ctx.assumptions += ["healthy database except for the injected crash (memdb behind a write-counting wrapper; a crash = every "
+                        "durable write after the k-th one of the call fails, then reopen on the underlying memdb)",
                         "one chain: a height has one block (id is a function of height); accepted heights increase; "
                         "the first accepted block is genesis; historical saves are below the last accepted height",
                         "the bound on retained blocks is evaluated after an accept or a restart (the points where pruning "
